@@ -14,7 +14,7 @@ fn col(rng: &mut Rng) -> Color { Color { r: rng.next() as u8, g: rng.next() as u
 fn bb(rng: &mut Rng) -> BoundingBox { BoundingBox { min: v3(rng), max: v3(rng) } }
 fn count(rng: &mut Rng) -> usize { match rng.below(4) { 0 => 0, 1 => 1, _ => rng.range(2, 5) as usize } }
 
-fn gen_root(rng: &mut Rng, ver: WmoVersion, arbitrary_doodad_offsets: bool) -> WmoRoot {
+pub fn gen_root(rng: &mut Rng, ver: WmoVersion, arbitrary_doodad_offsets: bool) -> WmoRoot {
     let names = ["hall", "hall_a", "hallway", "h", "antechamber", "hall"];
     let ng = count(rng);
     let groups: Vec<WmoGroupInfo> = (0..ng).map(|i| WmoGroupInfo { flags: WmoGroupFlags::from_bits_truncate(rng.u32() & 0x3FFFF), bounding_box: bb(rng), name: format!("{}{}", names[(i + rng.below(3) as usize) % names.len()], if rng.chance(1, 2) { format!("_{i}") } else { String::new() }) }).collect();
@@ -78,7 +78,7 @@ fn walk(bytes: &[u8], start: usize, end: usize) -> Option<Vec<(String, usize, us
 fn write_root(r: &WmoRoot, ver: WmoVersion) -> Result<Vec<u8>, String> { let mut c = Cursor::new(Vec::new()); match std::panic::catch_unwind(move || { WmoWriter::new().write_root(&mut c, r, ver).map(|_| c.into_inner()) }) { Ok(Ok(b)) => Ok(b), Ok(Err(e)) => Err(e.to_string()), Err(_) => Err("writer panics".into()) } }
 fn parse_root(b: &[u8]) -> Result<WmoRoot, String> { let b = b.to_vec(); match std::panic::catch_unwind(move || WmoParser::new().parse_root(&mut Cursor::new(b))) { Ok(Ok(r)) => Ok(r), Ok(Err(e)) => Err(e.to_string()), Err(_) => Err("parser panics".into()) } }
 
-fn gen_group(rng: &mut Rng) -> WmoGroup {
+pub fn gen_group(rng: &mut Rng) -> WmoGroup {
     let nv = count(rng) * 3;
     WmoGroup { header: WmoGroupHeader { flags: WmoGroupFlags::from_bits_truncate(rng.u32() & 0x3FFFF), bounding_box: bb(rng), name_offset: rng.below(40) as u32, group_index: rng.below(9) as u32 }, materials: vec![],
         vertices: (0..nv).map(|_| v3(rng)).collect(), normals: if rng.chance(2, 3) { (0..nv).map(|_| v3(rng)).collect() } else { vec![] }, tex_coords: (0..nv).map(|_| TexCoord { u: f(rng), v: f(rng) }).collect(),
